@@ -253,7 +253,19 @@ def run_case(case, rng):
         case.check(iv == iv_ref, "initial_value-differs", f"{iv!r} vs {iv_ref!r}", gamma=gamma)
     ch = purity.changed()
     case.check(not ch, "purity:mdp-arrays-mutated", f"changed: {ch}")
-    # the same policy object evaluated again on the same MDP object must give the same answer
+    # the same policy object evaluated again on the same MDP object must give the same answer - also when ANOTHER policy object
+    # (same labels, other probabilities) was evaluated on that MDP in between
+    if rng.random() < 0.4 and len(S) <= 40:
+        pol_b = G.random_policy(rng, sp)
+        pim_b = np.zeros((len(S), len(A)))
+        for s_, row_ in pol_b.items():
+            for a_, p_ in row_.items():
+                pim_b[arr.si[s_], arr.ai[a_]] = p_
+        tp_b = case.call("TabularPolicy.from_state_action_lists(second policy)", TabularPolicy.from_state_action_lists,
+                         state_list=S, action_list=A, data=pim_b)
+        if tp_b is not case.FAIL:
+            case.call("evaluate_on(second policy in between)", tp_b.evaluate_on, mdp, facts=dict(gamma=gamma))
+            case.count("evaluations_interleaved_with_another_policy")
     res2 = case.call("evaluate_on(repeat)", tp.evaluate_on, mdp, facts=dict(gamma=gamma))
     case.count("repeat_evaluations")
     if res2 is not case.FAIL:
